@@ -43,6 +43,7 @@ type Ctx struct {
 	Obs      []Obligation
 	Stats    map[string]int
 	Notes    []string
+	Extra    map[string]any // additional coverage keys (e.g. the sensitivity runs of the thorough tier)
 	Assume   []string
 	Decided  string // what the check decides
 	NotDec   string // what it does not decide
@@ -250,6 +251,9 @@ func (c *Ctx) Finish(root string, start time.Time, seed int, configs []string) i
 		"exhaustive":     false,
 		"checker_cmd":    "bin/hsverif check " + c.Prop + " " + c.Tier,
 		"trusted_base":   []string{"go/packages, go/types, go/ssa (golang.org/x/tools v0.50.0, go1.26.8)", "anchor, guarded-by, exemption and reference tables compiled into /verif/checker"},
+	}
+	for k, v := range c.Extra {
+		cov[k] = v
 	}
 	ev := evidence{PropertyID: c.Prop, Tier: c.Tier, Seed: seed, Level: "other", Coverage: cov,
 		Assumptions: append([]string{"the analysed source is what `go list ./...` reports for /repo's working tree (default build tags)"}, c.Assume...),
